@@ -141,3 +141,27 @@ func H_C06_nav() {
 	}
 	vcover("end")
 }
+
+// H_C06_annot_header: an annotation wrapper with a symbolic length nibble, a symbolic annotation-length field and a
+// symbolic annotation ID, inside a 3-byte list, followed by two symbolic bytes and an int tag whose 10-byte VarUInt
+// length has 64 symbolic value bits (what a reader that runs past the wrapper would interpret as further annotation
+// IDs and as the enclosed value's tag and length). Full
+// traversal with every accessor: nothing may panic. (The wrapper's own arithmetic - annotation length against the
+// wrapper length - is unsigned; an underflow there is only reachable with a matching 10-byte VarUInt behind it.)
+func H_C06_annot_header() {
+	w, a, i := vnondetU8(), vnondetU8(), vnondetU8()
+	vassume(w>>4 == 0xE)
+	x1, x2 := vnondetU8(), vnondetU8()
+	// behind the list: two more bytes, then an int tag with a 10-byte VarUInt length whose 64 value bits are symbolic
+	v := vnondetBytes(10)
+	for j := range v {
+		v[j] &= 0x7F
+	}
+	v[9] |= 0x80
+	doc := vCat(vBVM, []byte{0xB3, w, a, i, x1, x2, 0x2E}, v, []byte{0x20})
+	r := NewReaderBytes(doc)
+	var evs []vEv
+	vTraverse(r, 0, 4, true, &evs)
+	vAfter(r)
+	vcover("end")
+}
